@@ -1,9 +1,11 @@
 import HecsModel.Model.Containers
+import HecsModel.Lemmas.WorldInvStep
+import HecsModel.Lemmas.Batch
 /-
-  C12 — Column batches spawn exactly the rows that were written, or fail cleanly. (interim)
+  C12 — Column batches spawn exactly the rows that were written, or fail cleanly.
 -/
 namespace Hecs.Props.C12
-open Hecs
+open Hecs Hecs.BatchLemmas
 
 /-- `build` succeeds exactly when every declared column holds exactly `n` values -/
 theorem build_ok_iff (b : BatchB) : b.build.isSome = b.cols.all (fun c => c.2.length == b.n) := by
@@ -11,5 +13,216 @@ theorem build_ok_iff (b : BatchB) : b.build.isSome = b.cols.all (fun c => c.2.le
   split
   · rename_i h; simp [h]
   · rename_i h; simp at h ⊢; simpa using h
+
+/-- representation invariant of a column-batch builder: one column per declared type, in the
+canonical (strictly sorted) order, and no column is over-full -/
+def BatchOk (b : BatchB) : Prop :=
+  b.cols.map (·.1) = b.types ∧ strictSorted b.types = true ∧ ∀ c ∈ b.cols, c.2.length ≤ b.n
+
+theorem BatchOk.keys_nodup {b : BatchB} (h : BatchOk b) : (b.cols.map (·.1)).Nodup := by
+  rw [h.1]; exact strictSorted_nodup _ h.2.1
+
+/-! ### 12. creation and pushing -/
+
+theorem new_ok (decl : List Nat) (n : Nat) : BatchOk (BatchB.new decl n) := by
+  refine ⟨?_, dedupSorted_sortNat_sorted decl, ?_⟩
+  · simp [BatchB.new, List.map_map, Function.comp_def]
+  · intro c hc
+    simp only [BatchB.new, List.mem_map] at hc
+    obtain ⟨t, _, rfl⟩ := hc
+    simp
+
+/-- the declared types of a fresh builder are exactly the distinct requested types -/
+theorem new_types_mem (decl : List Nat) (n t : Nat) : t ∈ (BatchB.new decl n).types ↔ t ∈ decl :=
+  mem_dedupSorted_sortNat t decl
+
+theorem push_none_iff (b : BatchB) (t : Nat) (vs : List Nat) :
+    b.push t vs = none ↔ t ∉ b.types := by
+  unfold BatchB.push
+  split
+  · rename_i h; simpa using h
+  · rename_i h; simpa using h
+
+/-- `push` unfolded, with the column update named -/
+theorem push_eq (b : BatchB) (t : Nat) (vs : List Nat) (ht : t ∈ b.types) :
+    b.push t vs = some ({ b with cols := b.cols.map (upd t (vs.take (b.n - b.fill t))) },
+      (vs.take (b.n - b.fill t)).length, vs.drop (b.n - b.fill t)) := by
+  unfold BatchB.push
+  have : b.types.contains t = true := by simpa using ht
+  simp only [this, Bool.not_true, Bool.false_eq_true, if_false]
+  rfl
+
+theorem push_some_mem {b b' : BatchB} {t k : Nat} {vs rej : List Nat}
+    (h : b.push t vs = some (b', k, rej)) : t ∈ b.types := by
+  apply Classical.byContradiction
+  intro hn
+  rw [(push_none_iff b t vs).2 hn] at h
+  cases h
+
+/-- under the invariant, `fill t` is the length of the column of type `t` -/
+theorem fill_eq_of_mem {b : BatchB} (hb : BatchOk b) (c : Nat × List Nat) (hc : c ∈ b.cols) :
+    b.fill c.1 = c.2.length := by
+  unfold BatchB.fill
+  rw [find_of_mem b.cols hb.keys_nodup c hc]; rfl
+
+theorem fill_le {b : BatchB} (hb : BatchOk b) (t : Nat) : b.fill t ≤ b.n := by
+  unfold BatchB.fill
+  cases hf : b.cols.find? (·.1 == t) with
+  | none => simp
+  | some c => simpa using hb.2.2 c (List.mem_of_find?_eq_some hf)
+
+theorem push_ok {b b' : BatchB} {t k : Nat} {vs rej : List Nat} (hb : BatchOk b)
+    (h : b.push t vs = some (b', k, rej)) : BatchOk b' := by
+  have ht := push_some_mem h
+  rw [push_eq b t vs ht] at h
+  simp only [Option.some.injEq, Prod.mk.injEq] at h
+  obtain ⟨rfl, -, -⟩ := h
+  refine ⟨?_, hb.2.1, ?_⟩
+  · show (b.cols.map (upd t _)).map (·.1) = b.types
+    rw [map_upd_keys]; exact hb.1
+  · intro c hc
+    show c.2.length ≤ b.n
+    change c ∈ b.cols.map (upd t _) at hc
+    obtain ⟨d, hd, rfl⟩ := List.mem_map.1 hc
+    have hdn := hb.2.2 d hd
+    unfold upd
+    by_cases e : d.1 = t
+    · have hf := fill_eq_of_mem hb d hd
+      rw [e] at hf
+      simp only [e, beq_self_eq_true, if_true, List.length_append, List.length_take]
+      omega
+    · simpa [e] using hdn
+
+/-- values are accepted exactly while the column has room, whatever the split across
+successive writers; the rest are handed back; no other column is touched -/
+theorem push_counts {b b' : BatchB} {t k : Nat} {vs rej : List Nat} (hb : BatchOk b)
+    (h : b.push t vs = some (b', k, rej)) :
+    k = min vs.length (b.n - b.fill t) ∧ rej = vs.drop k ∧ b'.fill t = b.fill t + k ∧
+      (∀ t', t' ≠ t → b'.fill t' = b.fill t') ∧
+      b'.pushed.Perm (b.pushed ++ (vs.take k).map (fun v => (t, v))) := by
+  have ht := push_some_mem h
+  rw [push_eq b t vs ht] at h
+  simp only [Option.some.injEq, Prod.mk.injEq] at h
+  obtain ⟨rfl, rfl, rfl⟩ := h
+  have hk : (vs.take (b.n - b.fill t)).length = min vs.length (b.n - b.fill t) := by
+    rw [List.length_take]; omega
+  have htk : vs.take (min vs.length (b.n - b.fill t)) = vs.take (b.n - b.fill t) := by
+    rcases Nat.le_total vs.length (b.n - b.fill t) with hle | hle
+    · rw [Nat.min_eq_left hle, List.take_of_length_le (Nat.le_refl _), List.take_of_length_le hle]
+    · rw [Nat.min_eq_right hle]
+  have hdk : vs.drop (min vs.length (b.n - b.fill t)) = vs.drop (b.n - b.fill t) := by
+    rcases Nat.le_total vs.length (b.n - b.fill t) with hle | hle
+    · rw [Nat.min_eq_left hle, List.drop_of_length_le (Nat.le_refl _), List.drop_of_length_le hle]
+    · rw [Nat.min_eq_right hle]
+  have htc : t ∈ b.cols.map (·.1) := by rw [hb.1]; exact ht
+  refine ⟨hk, ?_, ?_, ?_, ?_⟩
+  · rw [hk, hdk]
+  · obtain ⟨c, hc, hct, hf⟩ := find_some_of_key_mem b.cols t htc
+    show (((b.cols.map (upd t _)).find? (·.1 == t)).map (·.2.length)).getD 0 = b.fill t + _
+    rw [find_map_upd_same]
+    unfold BatchB.fill
+    rw [hf]
+    simp
+  · intro t' ht'
+    show (((b.cols.map (upd t _)).find? (·.1 == t')).map (·.2.length)).getD 0 = b.fill t'
+    rw [find_map_upd_other t t' ht']
+    rfl
+  · rw [hk, htk]
+    exact flat_map_upd_perm t _ b.cols hb.keys_nodup htc
+
+/-- two successive writers for the same column behave as one writer pushing the concatenation -/
+theorem push_push {b b₁ b₂ : BatchB} {t k₁ k₂ : Nat} {vs₁ vs₂ r₁ r₂ : List Nat} (hb : BatchOk b)
+    (h₁ : b.push t vs₁ = some (b₁, k₁, r₁)) (h₂ : b₁.push t vs₂ = some (b₂, k₂, r₂)) :
+    b.push t (vs₁ ++ vs₂) = some (b₂, k₁ + k₂, r₁ ++ r₂) := by
+  have ht := push_some_mem h₁
+  have hc₁ := push_counts hb h₁
+  have hfl := fill_le hb t
+  have hfill := hc₁.2.2.1
+  have hk := hc₁.1
+  rw [push_eq b t vs₁ ht] at h₁
+  simp only [Option.some.injEq, Prod.mk.injEq] at h₁
+  obtain ⟨hB, hk₁, rfl⟩ := h₁
+  have hBn : b₁.n = b.n := by rw [← hB]
+  have hBc : b₁.cols = b.cols.map (upd t (vs₁.take (b.n - b.fill t))) := by rw [← hB]
+  have hBt : b₁.types = b.types := by rw [← hB]
+  rw [push_eq b₁ t vs₂ (hBt ▸ ht)] at h₂
+  simp only [Option.some.injEq, Prod.mk.injEq] at h₂
+  obtain ⟨rfl, rfl, rfl⟩ := h₂
+  rw [push_eq b t (vs₁ ++ vs₂) ht]
+  have hroom : b₁.n - b₁.fill t = b.n - b.fill t - vs₁.length := by
+    rw [hBn, hfill, hk]; omega
+  rw [hroom]
+  simp only [Option.some.injEq, Prod.mk.injEq]
+  refine ⟨?_, ?_, ?_⟩
+  · rw [hBc, map_upd_upd, List.take_append, hBt, hBn]
+  · rw [List.take_append, List.length_append, hk₁]
+  · rw [List.drop_append]
+
+/-! ### 13. building -/
+
+theorem build_none_drops (b : BatchB) : b.build = none ↔ ∃ c ∈ b.cols, c.2.length ≠ b.n := by
+  unfold BatchB.build BatchB.complete
+  split
+  · rename_i h
+    simp only [List.all_eq_true, beq_iff_eq] at h
+    simp only [reduceCtorEq, false_iff, not_exists, not_and, ne_eq, Decidable.not_not]
+    exact h
+  · rename_i h
+    simp only [List.all_eq_true, beq_iff_eq] at h
+    simp only [true_iff]
+    exact Classical.byContradiction (fun hn => h (fun c hc =>
+      Classical.byContradiction (fun hne => hn ⟨c, hc, hne⟩)))
+
+theorem build_some {b : BatchB} {rows : List (List Comp)} (h : b.build = some rows) :
+    rows = (List.range b.n).map b.row ∧ ∀ c ∈ b.cols, c.2.length = b.n := by
+  unfold BatchB.build BatchB.complete at h
+  split at h
+  · rename_i hc
+    simp only [List.all_eq_true, beq_iff_eq] at hc
+    simp only [Option.some.injEq] at h
+    exact ⟨h.symm, hc⟩
+  · cases h
+
+/-- the i-th row has the i-th value pushed to each column and nothing else -/
+theorem build_rows {b : BatchB} {rows : List (List Comp)} (hb : BatchOk b)
+    (h : b.build = some rows) :
+    rows.length = b.n ∧
+      (∀ i, i < b.n → ∀ c ∈ b.cols, lookupComp c.1 (rows[i]!) = some (c.2[i]!)) ∧
+      (∀ row ∈ rows, row.map (·.1) = b.types) ∧
+      rows.flatten.Perm b.pushed := by
+  obtain ⟨rfl, hlen⟩ := build_some h
+  refine ⟨by simp, ?_, ?_, ?_⟩
+  · intro i hi c hc
+    have hr : ((List.range b.n).map b.row)[i]! = b.row i := by
+      simp [List.getElem!_eq_getElem?_getD, List.getElem?_map, List.getElem?_range hi]
+    rw [hr]
+    have hv : c.2[i]! = c.2.getD i 0 := by
+      simp [List.getElem!_eq_getElem?_getD, List.getD]
+    rw [hv]
+    exact lookupComp_map_of_mem b.cols (fun d => d.2.getD i 0) hb.keys_nodup c hc
+  · intro row hrow
+    obtain ⟨i, _, rfl⟩ := List.mem_map.1 hrow
+    rw [← hb.1]
+    simp [BatchB.row, List.map_map, Function.comp_def]
+  · exact transpose_perm b.n b.cols hlen
+
+/-! ### 14. the world keeps working after a batch spawn -/
+
+theorem spawn_wf {b : BatchB} {rows : List (List Comp)} (hb : BatchOk b)
+    (h : b.build = some rows) : (Op.spawnColumnBatch b.types rows).WF :=
+  ⟨hb.2.1, (build_rows hb h).2.2.1⟩
+
+theorem spawnAt_wf {b : BatchB} {rows : List (List Comp)} (hs : List Entity) (hb : BatchOk b)
+    (h : b.build = some rows) : (Op.spawnColumnBatchAt hs b.types rows).WF :=
+  ⟨hb.2.1, (build_rows hb h).2.2.1⟩
+
+theorem spawn_inv {b : BatchB} {rows : List (List Comp)} {w : World} (hb : BatchOk b)
+    (h : b.build = some rows) (hw : w.Inv) : (step w (.spawnColumnBatch b.types rows)).1.Inv :=
+  World.inv_step w _ (spawn_wf hb h) hw
+
+theorem spawnAt_inv {b : BatchB} {rows : List (List Comp)} {w : World} (hs : List Entity)
+    (hb : BatchOk b) (h : b.build = some rows) (hw : w.Inv) :
+    (step w (.spawnColumnBatchAt hs b.types rows)).1.Inv :=
+  World.inv_step w _ (spawnAt_wf hs hb h) hw
 
 end Hecs.Props.C12
